@@ -45,7 +45,12 @@ func c14core(c *Ctx, f *ssa.Function) {
 	isBody := px.DynWhere(func(s *px.Sym) bool { return isParam(s, bodyP) })
 	commit := methodNamed("Commit")
 	rollback := methodNamed("Rollback")
-	ps := c.paths("C14.R1", f, px.Config{MayPanic: func(ci *px.CallInfo) bool { return ci.IsDyn() }})
+	// the body has three ways out: it returns, it panics, or it ends the goroutine (runtime.Goexit — what
+	// t.FailNow/t.Fatal do inside a body): on the last one the deferred calls run and recover() sees nil
+	ps := c.paths("C14.R1", f, px.Config{MayPanic: func(ci *px.CallInfo) bool { return ci.IsDyn() },
+		MayGoexit: func(ci *px.CallInfo) bool {
+			return ci.IsDyn() && ci.FnSym != nil && isParam(ci.FnSym, bodyP)
+		}})
 	if ps == nil {
 		return
 	}
@@ -131,6 +136,15 @@ func c14core(c *Ctx, f *ssa.Function) {
 			return true, ""
 		}
 		nc, nr := p.Count(commit), p.Count(rollback)
+		if b.GoexitHere {
+			if nc > 0 {
+				return false, "Commit although the body never returned: it ended its goroutine (runtime.Goexit, e.g. t.FailNow inside the body); the deferred finisher sees neither a panic nor an error and takes that for success"
+			}
+			if nr != 1 {
+				return false, "no Rollback on the path where the body ended its goroutine"
+			}
+			return true, ""
+		}
 		if b.PanicsHere {
 			if nc > 0 {
 				return false, "Commit on the path where the body panicked"
@@ -166,6 +180,9 @@ func c14core(c *Ctx, f *ssa.Function) {
 				return true, ""
 			}
 			return false, "path panics although the body did not"
+		}
+		if p.Exit == px.ExitGoexit {
+			return true, "" // nobody receives a result: the goroutine is gone (commit/rollback is decided by R2/R3)
 		}
 		if p.Exit != px.ExitReturn || len(p.Results) != 1 {
 			return false, "unexpected exit " + p.Exit.String()
@@ -401,11 +418,25 @@ func c14wrappers(c *Ctx) {
 // closureForwardsOnce: closure cl (capturing the parent's parameter fnP) calls it
 // exactly once on every path and returns its result.
 func closureForwardsOnce(c *Ctx, cl *ssa.Function, fnP *ssa.Parameter) bool {
-	ps, _, err := px.Run(px.Config{Prog: c.P.SSA}, cl)
+	ps, _, err := px.Run(px.Config{Prog: c.P.SSA, MayPanic: userPanics, Model: stdModel}, cl)
 	if err != nil || len(ps) == 0 {
 		return false
 	}
 	for _, p := range ps {
+		// a panic of the body must reach transactOnConn (which rolls back and reports it): a wrapper that
+		// recovers it turns the panic into a nil return, i.e. into a commit
+		panicked := false
+		for i := range p.Events {
+			if p.Events[i].PanicsHere {
+				panicked = true
+			}
+		}
+		if panicked {
+			if p.Exit != px.ExitPanic {
+				return false
+			}
+			continue
+		}
 		calls := p.All(px.DynWhere(func(s *px.Sym) bool {
 			// captured variable: load of the free-variable cell, or the free var itself
 			s = s.Strip(false)
